@@ -1,2 +1,340 @@
+"""C16, REAL part: asn_double2REAL / asn_REAL2double on IEEE-754 bit patterns.
+
+K leg: the real C functions vs the Lean model (Impl/Real.lean) on the same op lines.
+P leg: an independent oracle written from X.690 8.5 / 11.3 with struct / math.frexp / Fraction
+(not the Lean model): the stored octets are the DER form and the round trip is bit-exact
+(NaN -> NaN); hand-built binary REALs decode to the correctly rounded value."""
+import math, struct
+from fractions import Fraction
+
+MASK64 = (1 << 64) - 1
+EXP_INF = 0x7ff << 52
+
+def hx(bs): return bytes(bs).hex() if bs else "-"
+def unhx(s): return b"" if s == "-" else bytes.fromhex(s)
+
+def bits2double(bits): return struct.unpack(">d", struct.pack(">Q", bits))[0]
+def double2bits(d): return struct.unpack(">Q", struct.pack(">d", d))[0]
+
+def is_nan_bits(b): return (b >> 52) & 0x7ff == 0x7ff and b & ((1 << 52) - 1) != 0
+def is_subnormal_bits(b): return (b >> 52) & 0x7ff == 0 and b & ((1 << 52) - 1) != 0
+
+def twos_min(v):
+    n = 1
+    while not (-(1 << (8 * n - 1)) <= v < (1 << (8 * n - 1))): n += 1
+    return v.to_bytes(n, "big", signed=True)
+
+def der_real(bits):
+    """X.690 8.5 + 11.3: content octets of the DER encoding of the double with this bit pattern."""
+    d = bits2double(bits)
+    neg = bits >> 63
+    if d != d: return b"\x42"
+    if math.isinf(d): return b"\x41" if neg else b"\x40"
+    if d == 0: return b"\x43" if neg else b""
+    m, e = math.frexp(abs(d))            # |d| = m * 2^e, 0.5 <= m < 1, exact
+    n = int(m * (1 << 53)); e -= 53       # |d| = n * 2^e, n integer (exact: m has <= 53 bits)
+    assert Fraction(n) * Fraction(2) ** e == Fraction(abs(d))
+    while n % 2 == 0:                     # 11.3.1: mantissa odd
+        n //= 2; e += 1
+    eo = twos_min(e)                      # fewest octets
+    assert len(eo) <= 3
+    mo = n.to_bytes((n.bit_length() + 7) // 8, "big")
+    return bytes([0x80 | (neg << 6) | (len(eo) - 1)]) + eo + mo
+
+def round_fraction(x):
+    """correctly rounded (nearest-even) double of a non-negative Fraction; None on overflow"""
+    try:
+        d = x.numerator / x.denominator      # int / int is correctly rounded in CPython
+    except OverflowError:
+        return None
+    if math.isinf(d): return None
+    return d
+
+def pow2(k):
+    return Fraction(1 << k) if k >= 0 else Fraction(1, 1 << (-k))
+
+def decode_oracle(o):
+    """X.690 8.5 reading of content octets `o` (binary / special forms).
+    Returns ('ok', bits, mantissa_bit_length) | ('erange', 0, mantissa_bit_length) | ('nan',) | ('einval',) | ('skip',)"""
+    if len(o) == 0: return ("ok", 0, 0)
+    f = o[0]
+    if f & 0xC0 == 0x40:
+        if f == 0x40: return ("ok", EXP_INF, 0)
+        if f == 0x41: return ("ok", (1 << 63) | EXP_INF, 0)
+        if f == 0x42: return ("nan",)
+        if f == 0x43: return ("ok", 1 << 63, 0)
+        return ("einval",)
+    if f & 0xC0 == 0x00:
+        if f == 0 or f & 0x3C: return ("einval",)
+        return ("skip",)                    # ISO 6093 decimal
+    base = (f >> 4) & 3
+    if base == 3: return ("einval",)       # reserved
+    basef = (1, 3, 4)[base]
+    neg = (f >> 6) & 1
+    scale = (f >> 2) & 3
+    el = f & 3
+    if el == 3:
+        if len(o) < 2: return ("einval",)
+        x = o[1]
+        # 8.5.7.4 d): "the third up to the (X plus 3)th (inclusive) contents octets" = X + 1 octets
+        if x == 0: return ("einval",)
+        p, ne = 2, x + 1
+    else:
+        p, ne = 1, el + 1
+    if len(o) < p + ne: return ("einval",)
+    if ne > 3: return ("skip",)            # implementation limit (int32 exponent): not judged here
+    e = int.from_bytes(o[p:p + ne], "big", signed=True)
+    n = int.from_bytes(o[p + ne:], "big")
+    if n == 0: return ("ok", neg << 63, 0)
+    k = e * basef + scale
+    nb = n.bit_length()
+    # avoid astronomically large integers: decide far overflow / underflow by magnitude
+    if nb + k > 1100: return ("erange", 0, nb)
+    if nb + k < -1200: return ("ok", neg << 63, nb)
+    d = round_fraction(Fraction(n) * pow2(k))
+    if d is None: return ("erange", 0, nb)
+    return ("ok", (neg << 63) | double2bits(d), nb)
+
+def ordered(bits):
+    """monotone integer image of a non-negative finite double's bits"""
+    return bits & ~(1 << 63)
+
+# ---------------------------------------------------------------- generators
+
+def gen_double_bits(ctx):
+    rng = ctx.rng
+    out = []
+    F52 = (1 << 52) - 1
+    # specials, zeros, NaNs of every flavour
+    out += [0, 1 << 63, EXP_INF, (1 << 63) | EXP_INF]
+    for s in (0, 1 << 63):
+        for fr in (1, 2, 1 << 51, (1 << 51) | 1, (1 << 51) - 1, F52, 0x000123456789a):
+            out.append(s | EXP_INF | fr)
+    # per binary exponent: min / max / structured / random mantissas
+    nr = 2 if ctx.quick else 12
+    for E in range(1, 2047):
+        base = E << 52
+        fr = [0, F52, 1, 1 << 51]
+        fr += [rng.getrandbits(52) for _ in range(nr)]
+        k = rng.randrange(0, 52)
+        fr.append(((rng.getrandbits(52) | 1) << k) & F52)        # k trailing zero bits
+        for f in fr:
+            out.append((rng.getrandbits(1) << 63) | base | f)
+    # every trailing-zero count k (odd-mantissa shift + mstop logic), several exponents
+    exps = [1, 2, 3, 51, 52, 53, 54, 895, 896, 897, 1022, 1023, 1024, 1025, 1074, 1075, 1076, 1150, 1151, 1152, 2045, 2046]
+    exps += [rng.randrange(1, 2047) for _ in range(6 if ctx.quick else 60)]
+    for k in range(0, 53):
+        for E in exps:
+            for _ in range(2):
+                f = ((rng.getrandbits(52) | 1) << k) & F52 if k < 52 else 0
+                out.append((rng.getrandbits(1) << 63) | (E << 52) | f)
+            if k < 52:
+                out.append((E << 52) | (1 << k))                   # single fraction bit
+                out.append((E << 52) | (F52 & ~((1 << k) - 1)))    # all ones above k
+    # octet patterns of the 7-octet scratch pad: last non-zero octet x every octet value class
+    for pos in range(0, 7):
+        for v in (0x01, 0x02, 0x04, 0x08, 0x10, 0x20, 0x40, 0x80, 0x60, 0xa0, 0xc0, 0xe0, 0xf0, 0xff, 0x81, 0x7e):
+            for hi in (0, rng.getrandbits(52)):
+                sh = 8 * (6 - pos)
+                f = ((hi >> (sh + 8)) << (sh + 8)) | (v << sh)
+                f &= F52 if pos > 0 else 0xF << 48
+                if pos == 0: f = (v & 0xF) << 48
+                out.append((rng.getrandbits(1) << 63) | (rng.randrange(1, 2047) << 52) | f)
+    # subnormals (known-finding region F1)
+    sub = [1, 2, 3, 4, 5, 6, 7, 8, F52, F52 - 1, 1 << 51, (1 << 51) + 1, (1 << 51) - 1]
+    for k in range(0, 52):
+        sub += [1 << k, (1 << k) + 1, (1 << k) | (1 << (k // 2))]
+    sub += [rng.getrandbits(rng.randrange(1, 53)) for _ in range(100 if ctx.quick else 3000)]
+    for f in sub:
+        f &= F52
+        if f: out.append((rng.getrandbits(1) << 63) | f)
+    # random 64-bit patterns
+    out += [rng.getrandbits(64) for _ in range(3000 if ctx.quick else 300000)]
+    seen = set(); res = []
+    for b in out:
+        if b not in seen:
+            seen.add(b); res.append(b)
+    return res
+
+def enc_exp(v, n):
+    return (v & ((1 << (8 * n)) - 1)).to_bytes(n, "big")
+
+def gen_reals(ctx):
+    """hand-built content octets for R2d (never starting with 0x01..0x03 = decimal forms)"""
+    rng = ctx.rng
+    out = []
+    mants = [b"", b"\x00", b"\x01", b"\x03", b"\xff", b"\x00\x01", b"\x00\x00\x05", b"\x80", b"\x01\x00",
+             bytes.fromhex("1fffffffffffff"), bytes.fromhex("10000000000000"), bytes.fromhex("0010000000000001"),
+             bytes.fromhex("20000000000001"), bytes.fromhex("20000000000002"), bytes.fromhex("20000000000003"),
+             bytes.fromhex("3fffffffffffff"), bytes.fromhex("40000000000002"), bytes.fromhex("40000000000006"),
+             bytes.fromhex("ffffffffffffffff"), bytes.fromhex("8000000000000400"), bytes.fromhex("8000000000000c00"),
+             bytes.fromhex("8000000000000401"), bytes.fromhex("80000000000003ff"), bytes.fromhex("fffffffffffffbff"),
+             bytes.fromhex("fffffffffffffc00"), bytes.fromhex("0000ffffffffffffffff"),
+             bytes.fromhex("01" + "00" * 20), b"\xff" * 20, b"\x01" + b"\x00" * 127, b"\xff" * 128, b"\x01" + b"\x00" * 128,
+             b"\xff" * 140, b"\x00" * 10 + b"\x07"]
+    exps1 = [0, 1, -1, 2, 52, 53, -52, -53, 127, -128, 100, -100]
+    exps2 = [128, -129, 255, 256, -256, 970, 971, 972, 1022, 1023, 1024, 1025, -1021, -1022, -1023, -1074, -1075, -1076,
+             -1126, -1127, -1128, -1137, -1138, 341, 342, -358, -359, 255, 256, -268, -269, 32767, -32768, 0, 1, -1, 127, -128]
+    exps3 = [32768, -32769, 65535, -65536, 8388607, -8388608, 100000, -100000, 0, 1, -1, 1023, -1074, 300, -300]
+    for base in (0, 1, 2, 3):
+        for scale in (0, 1, 2, 3):
+            for sign in (0, 1):
+                hdr = 0x80 | (sign << 6) | (base << 4) | (scale << 2)
+                sel = mants if (scale == 0 or base == 0) else mants[::3]
+                for m in sel:
+                    for e in exps1 + [rng.randrange(-128, 128)]:
+                        out.append(bytes([hdr | 0]) + enc_exp(e, 1) + m)
+                    for e in exps2[::1 if len(m) <= 8 else 4] + [rng.randrange(-1200, 1200)]:
+                        out.append(bytes([hdr | 1]) + enc_exp(e, 2) + m)
+                    for e in exps3[::1 if len(m) <= 2 else 5]:
+                        out.append(bytes([hdr | 2]) + enc_exp(e, 3) + m)
+                # long form (second octet = X; X + 1 exponent octets follow)
+                for x, eo in ((0, b"\x00"), (1, b"\x00\x05"), (1, b"\xff\xfb"), (1, b"\x03\xff"), (2, b"\x00\x00\x05"),
+                              (2, b"\xff\xff\xfe"), (2, b"\x00\x03\xff"), (3, b"\x00\x00\x00\x05"), (4, b"\x00" * 5),
+                              (255, b"\x00" * 4), (200, b"\x01" * 201), (2, b"\x00"), (1, b"\x00"), (1, b"")):
+                    for m in (b"", b"\x01", b"\x00\x03", bytes.fromhex("1fffffffffffff")):
+                        out.append(bytes([hdr | 3, x]) + eo + m)
+                # truncated
+                out += [bytes([hdr | 0]), bytes([hdr | 1]), bytes([hdr | 1, 0]), bytes([hdr | 2]), bytes([hdr | 2, 0, 0]),
+                        bytes([hdr | 3]), bytes([hdr | 3, 1]), bytes([hdr | 3, 1, 0]), bytes([hdr | 3, 1, 0, 0])]
+    # subnormal / overflow edges with rounding in the final ldexp
+    nrand = 400 if ctx.quick else 20000
+    for _ in range(nrand):
+        n = rng.getrandbits(rng.choice([1, 2, 3, 8, 20, 52, 53, 53, 54, 55, 60, 64, 64, 70, 100]))
+        m = n.to_bytes((n.bit_length() + 7) // 8, "big") if n else b""
+        if rng.random() < 0.2: m = b"\x00" * rng.randrange(1, 3) + m
+        base = rng.choice([0, 0, 0, 1, 2]); scale = rng.randrange(4) if rng.random() < 0.5 else 0
+        basef = (1, 3, 4)[base]
+        nb = max(1, n.bit_length())
+        tgt = rng.choice([-1080, -1074, -1070, -1060, -1022, -1021, 0, 53, 1020, 1023, 1024, rng.randrange(-1200, 1200)])
+        e = (tgt - nb) // basef + rng.randrange(-2, 3)
+        ne = 1 if -128 <= e < 128 and rng.random() < 0.7 else 2 if -32768 <= e < 32768 and rng.random() < 0.8 else 3
+        out.append(bytes([0x80 | (rng.getrandbits(1) << 6) | (base << 4) | (scale << 2) | (ne - 1)]) + enc_exp(e, ne) + m)
+    # special / reserved first octets
+    for f in [0x00] + list(range(0x04, 0x40)) + list(range(0x40, 0x80)):
+        out.append(bytes([f])); out.append(bytes([f, 0x00])); out.append(bytes([f, 0x31, 0x32]))
+    # random octet strings
+    for _ in range(1500 if ctx.quick else 100000):
+        k = rng.choice([1, 2, 2, 3, 3, 4, 5, 6, 8, 9, 10, 12])
+        b = bytearray(rng.getrandbits(8) for _ in range(k))
+        b[0] = rng.choice([0x80, 0x80, 0x81, 0x82, 0x83, 0xc0, 0xc1, 0x90, 0xa0, 0xa5, 0x8c]) if rng.random() < 0.7 else b[0]
+        if 1 <= b[0] <= 3: b[0] |= 0x80
+        out.append(bytes(b))
+    seen = set(); res = []
+    for o in out:
+        if o and 1 <= o[0] <= 3: continue
+        if o not in seen:
+            seen.add(o); res.append(o)
+    return res
+
+# ---------------------------------------------------------------- run
+
 def run(ctx, drv):
-    pass
+    dbits = gen_double_bits(ctx)
+    lines = [f"d2R 0x{b:016x}" for b in dbits]
+    lines += ["d2R 3", "d2R 0", "d2R 9223372036854775808", "d2R 4607182418800017408"]   # decimal spelling too
+    nd = len(lines)
+    dis, couts, mouts = ctx.correspond("real", drv, lines)
+    ctx.cov["distribution"]["real_d2R_ops"] = nd
+
+    pfail = []          # (line, c_output, why, class)
+    # ---- P leg 1: octets are the DER form
+    second, second_src = [], []
+    classes = {}
+    for l, c in zip(lines, couts):
+        bits = int(l.split()[1], 0)
+        if c is None or c.startswith("CRASH"):
+            pfail.append((l, c, "crash", bits)); continue
+        if c in ("fail", "bad-op"):
+            pfail.append((l, c, "conversion failed", bits)); continue
+        o = unhx(c)
+        want = der_real(bits)
+        cls = ("nan" if is_nan_bits(bits) else "subnormal" if is_subnormal_bits(bits) else
+               "special/zero" if len(want) <= 1 else "normal")
+        classes[cls] = classes.get(cls, 0) + 1
+        if o != want:
+            pfail.append((l, c, f"stored octets are not the X.690 DER form {hx(want)}", bits))
+        second.append("R2d " + c); second_src.append((l, bits))
+    ctx.cov["distribution"]["real_double_classes"] = classes
+    # ---- P leg 2: round trip is bit-exact (NaN -> NaN)
+    c2, _ = ctx.run_c_bisect(drv, second)
+    ctx.cov["evaluations"] += len(second)
+    for (l, bits), l2, c in zip(second_src, second, c2):
+        exp = "ok nan" if is_nan_bits(bits) else f"ok {bits:016x}"
+        if c != exp:
+            pfail.append((l + " ; " + l2, c, f"round trip must return {exp}", bits))
+
+    # ---- R2d: the d2R outputs (model correspondence) + hand-built REALs
+    reals = gen_reals(ctx)
+    seen = set(reals)
+    for c in couts:
+        if c and not c.startswith("CRASH") and c not in ("fail", "bad-op"):
+            o = unhx(c)
+            if o not in seen:
+                seen.add(o); reals.append(o)
+    rlines = ["R2d " + hx(o) for o in reals]
+    dis2, rc, rm = ctx.correspond("real", drv, rlines)
+    dis = list(dis) + list(dis2)
+    ctx.cov["distribution"]["real_R2d_ops"] = len(rlines)
+    kinds = {}
+    nR = 0
+    for o, l, c in zip(reals, rlines, rc):
+        if c is None or c.startswith("CRASH"):
+            pfail.append((l, c, "crash", None)); continue
+        r = decode_oracle(o)
+        kinds[r[0]] = kinds.get(r[0], 0) + 1
+        if r[0] == "skip": continue
+        nR += 1
+        if r[0] == "nan": exp = "ok nan"
+        elif r[0] in ("einval", "erange"): exp = r[0]
+        else: exp = f"ok {r[1]:016x}"
+        if c == exp: continue
+        if r[0] in ("ok", "erange") and r[2] > 53:
+            # mantissa wider than 53 bits: the C code rounds at every accumulation step; accept a
+            # faithfully rounded result (within one unit in the last place, incl. the overflow edge)
+            MAXF = EXP_INF - 1
+            if r[0] == "erange": ok = c.startswith("ok ") and c != "ok nan" and ordered(int(c[3:], 16)) == MAXF
+            elif c == "erange": ok = ordered(r[1]) >= MAXF
+            elif c.startswith("ok ") and c != "ok nan":
+                cb = int(c[3:], 16)
+                ok = (cb >> 63) == (r[1] >> 63) and abs(ordered(cb) - ordered(r[1])) <= 1
+            else: ok = False
+            if ok:
+                kinds["wide-mantissa-faithful"] = kinds.get("wide-mantissa-faithful", 0) + 1
+                continue
+        pfail.append((l, c, f"X.690 8.5.7 value of the content octets is {exp}", None))
+    ctx.cov["distribution"]["real_R2d_oracle_kinds"] = kinds
+    ctx.cov["predicate"]["real"] = {"cases": nd + len(second) + nR, "failures": len(pfail)}
+
+    # ---- classification
+    def is_F1(l, bits):
+        return bits is not None and l.startswith("d2R") and is_subnormal_bits(bits)
+    def is_leading_zero(l, c, bits):
+        """normal double, C octets = DER octets with exactly one extra 00 in front of the mantissa"""
+        if bits is None or not l.startswith("d2R") or " ; " in l or is_subnormal_bits(bits): return False
+        try: o = unhx(c)
+        except Exception: return False
+        want = der_real(bits)
+        if len(want) < 3 or len(o) != len(want) + 1: return False
+        h = 1 + (want[0] & 3) + 1
+        return o[:h] == want[:h] and o[h] == 0 and o[h + 1:] == want[h:]
+    unexplained = []
+    nF1 = nLZ = 0
+    for l, c, why, bits in pfail:
+        f = None
+        if is_F1(l, bits):
+            f = ctx.match_finding(lambda f: f["id"] == "F1"); nF1 += 1
+        elif is_leading_zero(l, c, bits):
+            f = ctx.match_finding(lambda f: f["id"] == "F31"); nLZ += 1
+        if not f: unexplained.append((l, c, why))
+    ctx.cov["predicate"]["real"]["known_F1_cases"] = nF1
+    ctx.cov["predicate"]["real"]["known_F31_cases"] = nLZ
+    for l, c, why in unexplained[:5]:
+        ctx.violation(f"C16 predicate fails on C: {l} -> {c}: {why}",
+                      {"op": l.split(" ; ")[0], "ops": l.split(" ; "), "c_output": c, "why": why, "driver": "prim_driver"})
+    for i, l, c, m in dis[:50]:
+        ctx.broken.append({"kind": "correspondence", "name": "real", "op": l, "c": c, "model": m})
+    if dis:
+        ctx.log(f"real correspondence: {len(dis)} disagreements, first: {dis[0][1:]}")
+    ctx.log(f"real: {nd} d2R + {len(second)} round trips + {len(rlines)} R2d; P failures {len(pfail)} "
+            f"(F1 {nF1}, F31 {nLZ}, unexplained {len(unexplained)})")
